@@ -293,6 +293,12 @@ class Run:
                     return self.assume(r, el if same else (not el), vals, learned)
             if self._pure(nid):
                 vals[('p', self.fn.fp(nid))] = pol
+            learned.append((n, pol))
+            return True
+        if k == 'BinaryOperator' and n.get('op') in ('<', '<=', '>', '>='):
+            if self._pure(nid):
+                vals[('p', self.fn.fp(nid))] = pol
+            learned.append((n, pol))
             return True
         if k == 'BinaryOperator' and n.get('op') == ',':
             return self.assume(n['ch'][1], pol, vals, learned)
